@@ -2,10 +2,24 @@
     unbounded theorems are in Proofs/ParserFacts.v as they are completed. *)
 From RV Require Import Model.Base Model.Spirv Model.Grammar Model.Inst Model.Parser Model.Link.
 From RV Require Import Gen.SpirvData Gen.TableData Gen.ParseData Inst.Linked.
+From RV Require Gen.RefParams Gen.RefTable Gen.RefSpirv.
 
 Theorem C10_tables_link :
   resolve_all op_enum core_raw = Some core_table /\
   link_arms enums flags kind_names decode_raw args_raw parse_arms_raw = Some arms_linked.
 Proof. exact (conj table_resolves arms_link). Qed.
 
+(** "the grammar of its opcode" is the Khronos grammar: the tables the parser
+    and assembler run on equal the reference snapshot (layout, values, parameters) *)
+Theorem C10_grammar_is_reference :
+  (list_eqb str_eqb kind_names RefTable.kind_names = true /\
+   list_eqb raw_entry_eqb core_raw RefTable.core_raw = true) /\
+  (list_eqb enum_values_eqb enums RefSpirv.enums = true /\ list_eqb flags_eqb flags RefSpirv.flags = true) /\
+  (list_eqb arm_raw_eqb parse_arms_raw RefParams.parse_arms_raw = true /\
+   list_eqb args_raw_eqb args_raw RefParams.args_raw = true /\
+   list_eqb (pair_eqb (pair_eqb str_eqb str_eqb) Bool.eqb) decode_raw RefParams.decode_raw = true /\
+   ss_list_eqb operand_variants RefParams.operand_variants = true).
+Proof. exact (conj layout_matches_ref (conj values_match_ref params_match_ref)). Qed.
+
 Print Assumptions C10_tables_link.
+Print Assumptions C10_grammar_is_reference.
